@@ -132,6 +132,12 @@ check_c06(ZCase &c, Verdict &v)
   const T mx = static_cast<T>(mn + static_cast<T>(c.n - 1));
   const Z<T> z{mn, mx, c.alpha};
   const Z<T> dflt{};
+  // a second object that is first used with other parameters and then re-assigned to this case's parameters:
+  // the result must depend on the current parameters and the engine only, not on what the object (or an
+  // object at the same address) was before
+  const uint64_t n2 = 1 + (c.n * 7 + 3) % std::min<uint64_t>(61, c.n);  // <= n: stays inside the admissible range
+  Z<T> reused{mn, static_cast<T>(mn + static_cast<T>(n2 - 1)), c.alpha == 0.0 ? 1.5 : c.alpha * 0.5};
+  // resolve the probes' engine words from this case's CDF
   for (auto &p : c.probes) {
     if (!c.resolved) {
       const uint64_t k = p.k % c.n;
@@ -146,26 +152,41 @@ check_c06(ZCase &c, Verdict &v)
       }
       if (p.ukind != kArbitrary) p.word = word_for(u);
     }
+  }
+  auto judge = [&](const Z<T> &gen, const Probe &p, const char *which) {
     std::vector<uint64_t> words{p.word};
     const double u = variate_of(words);
     Eng e{&words};
-    const T r = z(e);
+    const T r = gen(e);
     char b[400];
     if (r < mn || r > mx) {
-      snprintf(b, sizeof b, "result %" PRId64 " outside [min, max] (n=%" PRIu64 ", alpha=%.17g, u=%.17g)", static_cast<int64_t>(r), c.n, c.alpha, u);
+      snprintf(b, sizeof b, "%s: result %" PRId64 " outside [min, max] (n=%" PRIu64 ", alpha=%.17g, u=%.17g)", which, static_cast<int64_t>(r), c.n, c.alpha, u);
       v.fail("ZIPF-RANGE", b);
-      continue;
+      return;
     }
     const uint64_t bin = static_cast<uint64_t>(r - mn);
-    const double hi = z.GetCDF(static_cast<T>(bin));
-    const double lo = bin == 0 ? -1.0 : z.GetCDF(static_cast<T>(bin - 1));
+    const double hi = gen.GetCDF(static_cast<T>(bin));
+    const double lo = bin == 0 ? -1.0 : gen.GetCDF(static_cast<T>(bin - 1));
     if (!(u <= hi) || !(lo <= u)) {
-      snprintf(b, sizeof b, "%s n=%" PRIu64 " alpha=%.17g: u=%.17g mapped to bin %" PRIu64 " but GetCDF(bin-1)=%.17g GetCDF(bin)=%.17g", c.cls ? "approx" : "exact", c.n, c.alpha, u, bin, lo, hi);
+      snprintf(b, sizeof b, "%s %s n=%" PRIu64 " alpha=%.17g: u=%.17g mapped to bin %" PRIu64 " but GetCDF(bin-1)=%.17g GetCDF(bin)=%.17g", which, c.cls ? "approx" : "exact", c.n, c.alpha, u, bin, lo, hi);
       v.fail(c.cls && c.n > 100 && bin >= 98 && bin <= 101 ? "ZIPF-INVCDF-SEAM" : "ZIPF-INVCDF", b);
     }
     // non-trivial: u within 1 ulp of a breakpoint, or first/last bin
     if (bin == 0 || bin == c.n - 1 || std::nextafter(u, 2.0) >= hi || (bin > 0 && std::nextafter(u, 0.0) <= lo)) v.nontrivial = true;
-    // default-constructed generators always return 0
+  };
+  // 1. consecutive draws from one generator
+  for (auto &p : c.probes) judge(z, p, "fresh generator");
+  // 2. an object that was sampled with other parameters, then re-assigned
+  {
+    std::vector<uint64_t> w0{c.probes.empty() ? 0x8000000000000000ULL : c.probes[0].word};
+    Eng e0{&w0};
+    (void)reused(e0);
+    reused = Z<T>{mn, mx, c.alpha};
+    for (auto &p : c.probes) judge(reused, p, "re-assigned generator");
+  }
+  // 3. default-constructed generators always return 0
+  for (auto &p : c.probes) {
+    std::vector<uint64_t> words{p.word};
     Eng e2{&words};
     if (dflt(e2) != 0) v.fail("ZIPF-DEFAULT", "a default-constructed generator returned a non-zero value");
   }
@@ -277,7 +298,21 @@ check_c19(ZCase &c, Verdict &v)
     return out;
   };
   const Z<T> z{mn, mx, c.alpha};
+  // history: this thread first samples a generator with other parameters; outputs of `z` must not depend on it
+  {
+    const uint64_t n2 = 1 + (c.n * 5 + 1) % std::min<uint64_t>(997, c.n);
+    const Z<T> other{mn, static_cast<T>(mn + static_cast<T>(n2 - 1)), c.alpha == 0.0 ? 0.75 : c.alpha * 0.5};
+    std::mt19937_64 e{c.engseed ^ 0xabcdefULL};
+    for (int i = 0; i < 3; i++) (void)other(e);
+  }
   const auto base = seq(z, c.engseed);
+  {
+    // ... and a thread that has never sampled anything gets the same sequence from the same engine state
+    std::vector<T> fresh;
+    std::thread th([&] { fresh = seq(z, c.engseed); });
+    th.join();
+    if (fresh != base) v.fail("ZIPF-PURE", "the sequence depends on what the sampling thread drew from other generators before (a fresh thread gets a different one)");
+  }
   const Z<T> twin{mn, mx, c.alpha};
   if (seq(twin, c.engseed) != base) v.fail("ZIPF-PURE", "two generators with equal parameters disagree on the same engine state");
   if (seq(z, c.engseed) != base) v.fail("ZIPF-PURE", "sampling changed the generator: a second run from the same engine state differs");
@@ -339,16 +374,14 @@ check_c19(ZCase &c, Verdict &v)
     const T half = static_cast<T>(std::is_signed_v<T> ? 0 : (tmax / 2) + 1);
     const T a = static_cast<T>(c.engseed % 7), b = static_cast<T>((c.engseed >> 8) % 5);
     std::vector<std::pair<T, T>> inv;  // (min, max) with max < min
-    if (c.n >= 2) inv.emplace_back(mx, mn);
-    inv.emplace_back(static_cast<T>(half + a), static_cast<T>(half - 1 - b));
-    inv.emplace_back(static_cast<T>(mn + 1), mn);
+    // (pairs are chosen so that a generator that is wrongly accepted has few bins: `max - min + 1` wraps to a small
+    // number; far-apart signed bounds are not used because that expression overflows before the constructor validates)
     if constexpr (!std::is_signed_v<T>) {
-      // (for signed types `max - min + 1` of such far-apart bounds overflows before the constructor validates:
-      // the property asks for rejection, not for UB-freedom of that expression, so they are not generated)
-      inv.emplace_back(static_cast<T>(tmax - a), static_cast<T>(tmin + b));
-      inv.emplace_back(static_cast<T>(tmax - a), static_cast<T>(half - 1 - b));
-      inv.emplace_back(static_cast<T>(half + a + 1), static_cast<T>(tmin + b));
+      inv.emplace_back(static_cast<T>(tmax - a), static_cast<T>(tmin + b));  // min >= 2^(w-1) > max
     }
+    if (c.n >= 2 && c.n <= 100000) inv.emplace_back(mx, mn);
+    inv.emplace_back(static_cast<T>(mn + 1), mn);
+    if (a + b == 0) inv.emplace_back(static_cast<T>(half), static_cast<T>(half - 1));
     for (auto &[lo, hi] : inv) {
       if (!(hi < lo)) continue;
       bool thrown = false;
@@ -379,8 +412,21 @@ dispatch_t(ZCase &c, Verdict &v)
   }
 }
 
+void run_case_inner(ZCase &c, Verdict &v);
+
+// admissible parameters must be accepted: an exception escaping a constructor / GetCDF / operator() on them is a failure
 void
 run_case(ZCase &c, Verdict &v)
+{
+  try {
+    run_case_inner(c, v);
+  } catch (const std::exception &e) {
+    v.fail("ZIPF-EXCEPTION", std::string("an exception escaped for admissible parameters (n=") + std::to_string(c.n) + ", alpha=" + std::to_string(c.alpha) + "): " + e.what());
+  }
+}
+
+void
+run_case_inner(ZCase &c, Verdict &v)
 {
   v.labels.push_back(std::string("class=") + (c.cls ? "approx" : "exact"));
   v.labels.push_back(std::string("type=") + (c.type == 0 ? "u32" : c.type == 1 ? "u64" : c.type == 2 ? "i32" : "i64"));
